@@ -4,7 +4,7 @@ set -e
 rm -rf /tmp/hdbg && /verif/.bin/harness_ins -stream $1 -seed $2 -n $3 -only $4 -out /tmp/hdbg
 cd /tmp/hdbg
 f=cases_$1_0.v
-sed -i 's/CheckResolver Monitors\./CheckResolver Monitors Debug./; s/^Definition result.*$/Definition result := Eval vm_compute in (map (fun c => dbg_first (snd c)) cases)./' $f
+sed -i 's/CheckResolver Monitors Monitors2\./CheckResolver Monitors Monitors2 Debug./; s/^Definition result.*$/Definition result := Eval vm_compute in (map (fun c => dbg_first (snd c)) cases)./' $f
 coqc -Q /verif/coq ArgMapper $f 2>&1 | head -${5:-60}
 python3 -c "
 import json
